@@ -312,21 +312,30 @@ def answered_probe(writes):
     return False
 
 
-def run_session(repo_mods, pname, setup, msgs, verbose=False, limited=True, late=None):
+def run_session(repo_mods, pname, setup, msgs, verbose=False, limited=True, late=None, script=None):
     """Feeds `msgs` (unframed) to a real RPCSession whose connection uses protocol `pname` and has
     `setup` outstanding, then a probe request.  Returns observations.
 
-    late = dict(what='single'|'batch', delta=<seconds>, resp=<kind>): before the messages, the
-    session itself sends a request (a batch) and waits for the answer under its
-    `sent_request_timeout`; the peer's response is delivered `delta` seconds after the deadline
-    (a negative delta smaller than the loop's clock resolution: in the same loop iteration as
-    the timeout, ahead of it).
+    script: what happens before the messages - a list of steps
+        ['ask', 'single'|'batch']        the session itself sends a request (a batch of two
+                                         requests and a notification) and waits for the answer
+                                         under its `sent_request_timeout`
+        ['sleep', seconds]               virtual time passes
+        ['peer', hex]                    the peer sends these bytes now
+        ['answer', k, kind, delta]       the peer answers the k-th 'ask' (kind: valid / error /
+                                         malformed / duplicate); delta None: now, else `delta`
+                                         seconds after that request's deadline (a negative delta
+                                         smaller than the loop's clock resolution: in the same
+                                         loop iteration as the timeout, ahead of it)
+    late = dict(what=, resp=, delta=) is short for [['ask', what], ['answer', 0, resp, delta]].
 
     verbose: debug logging enabled on every logger, `session.verbosity` raised, `log_me` set."""
     mod, smod, rmod = repo_mods
     c05_fake.bind_virtual_time(smod)
     cls = protos(mod)[pname]
     obs = {}
+    if late:
+        script = [['ask', late['what']], ['answer', 0, late['resp'], late['delta']]] + list(script or [])
 
     class S(smod.RPCSession):
         async def handle_request(self, request):
@@ -350,36 +359,59 @@ def run_session(repo_mods, pname, setup, msgs, verbose=False, limited=True, late
         await c05_fake.settle()
         per = []
         loop = asyncio.get_event_loop()
-        if late:
-            timeout = float(getattr(session, 'sent_request_timeout', 30.0))
-            t0 = loop.time()
-            nw = len(t.writes)
+        timeout = float(getattr(session, 'sent_request_timeout', 30.0))
+        asks = []
 
-            async def ask():
-                if late['what'] == 'single':
-                    return await session.send_request('slow', [])
-                async with session.send_batch() as b:
-                    b.add_request('slow', [1])
-                    b.add_request('slow', [2])
-                    b.add_notification('note')
-                return b.results
-            task = loop.create_task(ask())
-            await c05_fake.settle()
-            ids = [i for w in t.writes[nw:] for part in w.split(b'\n') if part for i in wire_ids(part)]
-            resp = late_response(pname, late['what'], late['resp'], ids)
-            loop.call_at(t0 + timeout + late['delta'], p.data_received, resp + b'\n')
-            if late['resp'] == 'duplicate':
-                loop.call_at(t0 + timeout + late['delta'], p.data_received, resp + b'\n')
-            await asyncio.sleep(timeout + abs(late['delta']) + 3)
+        async def ask(what):
+            if what == 'single' or pname == 'v1':
+                return await session.send_request('slow', [])
+            async with session.send_batch() as b:
+                b.add_request('slow', [1])
+                b.add_request('slow', [2])
+                b.add_notification('note')
+            return b.results
+
+        def deliver(data):
+            if not t.is_closing():
+                p.data_received(data)
+        for step in (script or []):
+            if step[0] == 'ask':
+                t0, nw = loop.time(), len(t.writes)
+                task = loop.create_task(ask(step[1]))
+                await c05_fake.settle()
+                ids = [i for w in t.writes[nw:] for part in w.split(b'\n') if part
+                       for i in wire_ids(part)]
+                asks.append((task, step[1], ids, t0 + timeout))
+            elif step[0] == 'sleep':
+                await asyncio.sleep(step[1])
+                await c05_fake.settle()
+            elif step[0] == 'peer':
+                deliver(bytes.fromhex(step[1]) + b'\n')
+                await c05_fake.settle(40)
+            elif step[0] == 'answer' and asks:
+                task, what, ids, deadline = asks[step[1] % len(asks)]
+                resp = late_response(pname, what, step[2], ids) + b'\n'
+                if step[2] == 'duplicate':
+                    resp += resp
+                if step[3] is None:
+                    deliver(resp)
+                    await c05_fake.settle(40)
+                else:
+                    loop.call_at(deadline + step[3], deliver, resp)
+        if asks:
+            await asyncio.sleep(timeout + 5)
             await c05_fake.settle(40)
-            obs['ask'] = ('pending' if not task.done() else 'cancelled' if task.cancelled()
-                          else type(task.exception()).__name__ if task.exception() is not None
-                          else 'result')
-            if not task.done():
-                task.cancel()
+            outcomes = []
+            for task, _what, _ids, _d in asks:
+                outcomes.append('pending' if not task.done() else 'cancelled' if task.cancelled()
+                                else type(task.exception()).__name__ if task.exception() is not None
+                                else 'result')
+                if not task.done():
+                    task.cancel()
+            obs['ask'] = ','.join(outcomes)
         for m in msgs:
             before = len(t.writes)
-            p.data_received(m + b'\n')
+            deliver(m + b'\n')
             await c05_fake.settle(40)
             # let throttling sleeps elapse (virtual time)
             await asyncio.sleep(5)
